@@ -414,11 +414,14 @@ def check_shared_visited(facts, rep):
                         uses.append((k, e.name.split('::')[-1], sk(e.args[0])))
         inst = 'Link::%s|one visited-edge set shared by all sweeps' % fn
         in_closure = [k for k in created if k != root]
-        captured = [u for u in uses if u[0] != root and re.search(r'\^(_ref__)?passed\)*$', u[2])]
+        captured = [u for u in uses if u[0] != root and re.search(r'\^(_ref__)?\w+\)*$', u[2])]
         local_use = [u for u in uses if u[0] != root and not re.search(r'\^', u[2])]
         kinds = {u[1] for u in captured}
         if created.get(root, 0) >= 1 and not in_closure and not local_use and kinds == {'contains', 'insert'}:
             rep.ok('E7.T8-shared-visited-set', inst, 'created once in %s, captured by the sweep closures (%d uses)' % (fn, len(set(captured))))
+        elif not (in_closure or local_use):
+            # no per-sweep set was seen: the bookkeeping is done some other way (a bitmap, a Vec<bool>, ..) - not read
+            rep.indet('E7.T8: visited-edge bookkeeping of Link::%s outside the recognised fragment (sets created in %s, uses %s)' % (fn, sorted(created) or 'nowhere', sorted(set(u[1] for u in uses))))
         else:
             rep.violation('E7.T8-shared-visited-set', inst,
                           'Link::%s: the visited-edge set is created in %s and used as %s; the fallback sweeps (start positions 1, 2) must see the edges the first sweep walked, '
